@@ -6,6 +6,8 @@
   deviations                       every deviation of Findings.tla switched on alone must make TLC violate the
                                    listed invariants of the models (finding reproduces / invariants are not vacuous)
   corrupt                          binding: corrupt single recorded fields of a valid trace, the monitor must reject
+  matrix [ids...]                  which checks catch which seeded change (scratch worktrees, /repo untouched);
+                                   writes seeded/MATRIX.json
   findings                         every known_findings.json entry is demonstrated on the real code before its repair
                                    (scratch worktree) and is silent / reported as KNOWN-FINDING on the current tree
   clean [n]                        the unchanged tree must stay silent for n seeds (default 5), all 19 checks
@@ -107,6 +109,9 @@ def main(args, chk):
     if what == "deviations":
         import st_models
         return st_models.deviations(chk)
+    if what == "matrix":
+        import st_models
+        return st_models.matrix(chk, rest)
     if what == "findings":
         import st_models
         return st_models.findings(chk)
